@@ -21,6 +21,9 @@ REQUIRED = [
     "pauli_matrix_action", "normalize_preserves_stabilized", "apply_gate_stabilizes", "measure_random_sound",
     "collapse_sound", "deterministic_of_zrow", "reachable_sound", "tableau_contract_partial",
     "detshape_core_no_anticentral", "stabHyps_partial",
+    # DetShapeHolds discharged: hypothesis-free forms
+    "det_shape_holds", "tableau_contract", "reachable_sound_generated", "measure_deterministic_sound",
+    "stabHyps_generated",
     # finite, kernel-checked (n <= 2)
     "enum_card", "enum_is_closure", "exhaustive_gates_n2", "exhaustive_measure_n2", "exhaustive_reset_partial_n2",
     "exhaustive_canonical_n2", "equal_states_identical_tableau_n2", "history_independent_n2",
@@ -174,11 +177,12 @@ def run(ctx):
         "peek_all on correlated random qubits is excluded (known finding D5-stab-peek-all-independent, witnessed by neg_peek_all_independent)",
         "measure_deterministic_sound_partial: proved for all n only from the hypothesis that the reported row is exactly +-Z_q; that a canonical "
         "tableau without X/Y in column q has such a row, and that all other qubits are 50/50, is FINITE (n <= 2) + correspondence",
-        "tableau_contract_partial: Sim.TableauOK (C02's contract) is instantiated for all n with St := Reach, relative to ONE hypothesis "
-        "DetShapeHolds (in every reachable tableau a column without X/Y holds exactly one Z, in a row that is Z_q alone); it is needed by "
-        "the fields det and reset (deterministic branch) only; init, scale, weight, gate, basis, rand (+collapse), reset (random branch) are "
-        "unconditional.  DetShapeHolds is FINITE-checked (n <= 2, exhaustive_measure_n2) and checked by (A)+(B) beyond",
-        "NOT proved for general n: normalize output is in reduced echelon form / idempotent / unique (Canonical), DetShapeHolds",
+        "tableau_contract (all n, no hypothesis): Sim.TableauOK (C02's contract) holds for St := Reach with the generated tables over Q(zeta_8); "
+        "DetShapeHolds is PROVED (det_shape_holds: reduced echelon shape of normalize + ghost destabilizers + a pigeonhole counting "
+        "argument over ZMod 2); the *_partial theorems are kept as the relative forms",
+        "stabHyps_generated still takes `hpos` (positivity of the squared norm over Q(zeta_8)) as a parameter: a property of the amplitude type",
+        "NOT proved for general n: normalize is idempotent / its output is the unique canonical form (equal states => identical tableau "
+        "is FINITE, n <= 2, plus correspondence)",
         "u64 words are modelled as Nat (frame laws bits_get_set / bits_sign_get_set do not need the 64-bit bound); Vec<u64> indexing as list indexing; "
         "that the packed structure and the row model agree on whole tableaux is checked by (A) on the `words` requests (up to 70 qubits), not proved",
     ]
